@@ -82,7 +82,13 @@ func cmdFanIn(a Args) {
 	extraEventSink = func(seq uint64, ev string, svc uint64, ta, tb, tc int64, s string) {
 		if ev == "enq" {
 			if name, ok := svcName.Load(svc); ok {
-				log.add(map[string]interface{}{"e": "enq", "s": name, "ty": ta, "len": tc})
+				log.add(map[string]interface{}{"e": "enq", "s": name, "ty": ta, "len": tc, "id": tb})
+			}
+		}
+		// a packet of a connection has been handled and committed by its processor (AnswerTrace)
+		if ev == "proc" {
+			if name, ok := svcName.Load(svc); ok {
+				log.add(map[string]interface{}{"e": "proc", "s": name, "ty": ta, "id": tb})
 			}
 		}
 		// the broker has handled (and therefore retained) one more generation of the rewriter
@@ -342,6 +348,10 @@ func cmdFanIn(a Args) {
 			c.Write([]byte{0xc0, 0})
 		}
 		time.Sleep(150 * time.Millisecond)
+		if !aborted {
+			// everything has been sent and handled, every connection is still open
+			log.add(map[string]interface{}{"e": "quiet"})
+		}
 		close(stop)
 		for _, c := range conns {
 			c.Close()
